@@ -672,9 +672,15 @@ class TaintInterp:
         if r is not None:
             if r[0] == "const":
                 try:
-                    return self.lift(self.repo.const(r[1], r[2]))
+                    cv = self.repo.const(r[1], r[2])
                 except NotConst:
                     return sc()
+                if isinstance(cv, (set, frozenset)) and len(cv) >= 2 and any(isinstance(x, str) for x in cv):
+                    el = None
+                    for x in cv:
+                        el = join(el, self.lift(x))
+                    return V("seq", E, el, self.src(HASH, fi, e, f"`{e.id}` is a module-level set of strings (iteration order depends on the hash seed)"), ("set", id(e)))
+                return self.lift(cv)
             if r[0] == "func":
                 return V("func", x=("tucan", r[1]))
             if r[0] == "ext":
